@@ -45,7 +45,7 @@ var codecPools = map[string][]string{
 	"plain":      {"a", "hello world", "Zz9"},
 	"empty":      {""},
 	"ws-only":    {" ", "  ", "\t", " \t "},
-	"newline":    {"\n", "a\nb", "\n\n", "a\n", "\na", "a\n\n", "a\r\nb", "line1\n  indented\nline3\n", "\n a", " a\nb", "\n  a\n b"},
+	"newline":    {"\n", "a\nb", "\n\n", "a\n", "\na", "a\n\n", "a\r\nb", "line1\n  indented\nline3\n", "\n a", " a\nb", "\n  a\n b", "a\n\n\t\nb", "a\n\t\nb\n\nc", "x\n\u00a0\n\ny", "a\n \nb\n\nc", "a\n\u3000\n\n"},
 	"yaml-bool":  {"true", "yes", "No", "on", "OFF", "y", "n", "~", "null", "Null", "NULL", "False", "TRUE"},
 	"yaml-num":   {"1", "0x1F", "1e3", "1_000", ".5", "+1", "0o17", "-0", "1.0", ".inf", "-.Inf", ".NaN", "0b101", "190:20:30", "012", "1.", "+.5"},
 	"yaml-date":  {"2001-12-14", "2001-12-14t21:59:43.10-05:00", "2001-12-14 21:59:43.10 -5"},
@@ -73,7 +73,7 @@ var codecKeyPools = map[string][]string{
 	"empty":     {""},
 	"yaml-bool": {"true", "null", "yes", "No", "~", "on"},
 	"yaml-num":  {"1", "1.5", "0x1", "1e3", "-0"},
-	"ind-first": {"- a", "? b", "#c", "&d", "*e", "!f", "[g", "{h", "|i", ">j", "'k", "\"l", "%m", "@n", "-", "...k", "<<", "k<<"},
+	"ind-first": {"- a", "? b", "#c", "&d", "*e", "!f", "[g", "{h", "|i", ">j", "'k", "\"l", "%m", "@n", "-", "...k", "<<", "k<<", "? a\nb", "...\nx", "a\n<<", "? a", "?"},
 	"ind-inner": {"a: b", "a #b", "a b", "a:b"},
 	"unicode":   {"é", "😀", "日本"},
 	"ws":        {" ", " a", "a ", "a\nb", "\t"},
